@@ -55,14 +55,17 @@ def generate(seed, tier):
     # abstraction preconditions: programs whose abstracted event depends on the finite part of the same guard (must be
     # refused or handled exactly) - a fixed number per run, whatever the profile lottery produced
     want, j = (4 if tier == "quick" else 40), 0
-    have = sum(1 for c in cases if "abstract-derived-value-dependent-on-finite-conjunct" in c["features"])
-    while have < want and j < 4000:
+    DEP = ("abstract-derived-value-dependent-on-finite-conjunct", "abstract-second-condition-on-derived-value")
+    have = {f: sum(1 for c in cases if f in c["features"]) for f in DEP}
+    while min(have.values()) < want and j < 4000:
         cs = K.harness_seed(seed, ID + "-dep", j)
         j += 1
         prog, feats, meta = G.generate(cs, "abstract")
-        if "abstract-derived-value-dependent-on-finite-conjunct" not in feats:
+        hit = [f for f in DEP if f in feats and have[f] < want]
+        if not hit:
             continue
-        have += 1
+        for f in hit:
+            have[f] += 1
         params, inits = G.instantiate_params(random.Random(cs), meta, prog)
         cases.insert(0, {"id": f"gen-{cs}", "text": program_str(prog), "ast": prog.to_json(), "params": K.frac_enc(params),
                          "inits": K.frac_enc(inits), "N": 3, "settings": {}, "features": feats + ["cfg:default"]})
